@@ -510,6 +510,20 @@ func freshLocals(info *types.Info, body *ast.BlockStmt, ft *ast.FuncType, tpath,
 		}
 		return true
 	})
+	// named results of (non-pointer) struct type: the zero value is owned by the function
+	if ft.Results != nil {
+		for _, f := range ft.Results.List {
+			for _, n := range f.Names {
+				o := info.Defs[n]
+				if o == nil {
+					continue
+				}
+				if _, isPtr := o.Type().(*types.Pointer); !isPtr && structOf(o.Type()) != nil {
+					cand[o] = true
+				}
+			}
+		}
+	}
 	out := map[types.Object]bool{}
 	for o := range cand {
 		if !bad[o] && !params[o] {
